@@ -1024,3 +1024,16 @@ func (g *Gen) Scenario() []AOp {
 		return norm(ops)
 	}
 }
+
+// RandomRow draws values for a random subset of the columns of a table
+// (references are arbitrary: used where only the cache is exercised).
+func (g *Gen) RandomRow(t string) map[string]interface{} {
+	tb := g.S.Tables[t]
+	row := map[string]interface{}{}
+	for _, cn := range tb.ColNames() {
+		if g.chance(0.5) {
+			row[cn] = g.value(tb.Cols[cn], map[string][]string{})
+		}
+	}
+	return row
+}
